@@ -2,6 +2,7 @@ import Csproto.Props.C01
 import Csproto.Bridge.Facts
 import Csproto.Bridge.WireFuncs
 import Csproto.Bridge.WireFuncs2
+import Csproto.Bridge.DecoderFuncs
 /- axiom audit for C01: parsed by ./check; every line must list only propext / Classical.choice / Quot.sound -/
 open Csproto
 #print axioms C01.sizeOfVarint_exact
@@ -50,3 +51,16 @@ open Csproto
 #print axioms Csproto.Bridge.WireFuncs.translated_zigzag64_roundtrip
 #print axioms Csproto.Bridge.WireFuncs.translated_zigzag32_roundtrip
 #print axioms Csproto.Bridge.WireFuncs.translated_tag_roundtrip
+
+-- Decoder METHODS translated from decoder.go refine the transition system Dec.step the property theorems are about: Bridge/DecoderFuncs.lean
+#print axioms Csproto.Bridge.DecoderFuncs.DecodeTag_refines
+#print axioms Csproto.Bridge.DecoderFuncs.DecodeUInt64_refines
+#print axioms Csproto.Bridge.DecoderFuncs.DecodeInt64_refines
+#print axioms Csproto.Bridge.DecoderFuncs.DecodeUInt32_refines
+#print axioms Csproto.Bridge.DecoderFuncs.DecodeInt32_refines
+#print axioms Csproto.Bridge.DecoderFuncs.DecodeSInt32_refines
+#print axioms Csproto.Bridge.DecoderFuncs.DecodeSInt64_refines
+#print axioms Csproto.Bridge.DecoderFuncs.DecodeFixed32_refines
+#print axioms Csproto.Bridge.DecoderFuncs.DecodeFixed64_refines
+#print axioms Csproto.Bridge.DecoderFuncs.Offset_refines
+#print axioms Csproto.Bridge.DecoderFuncs.Reset_refines
